@@ -3,6 +3,9 @@ import torch
 from ..domain import Domain, BoundaryDomain
 from ...spaces import Points
 
+# absolute tolerance for barycentric coordinates of boundary points
+BARY_TOL = 1.0e-5
+
 
 class Parallelogram(Domain):
     """Class for arbitrary parallelograms, even if time dependet
@@ -174,9 +177,12 @@ class ParallelogramBoundary(BoundaryDomain):
         return torch.logical_or(x_close, y_close)
 
     def _bary_coords_close_to_0_or_1(self, bary_coord1, bary_coord2):
-        between_0_1 = torch.logical_and(0 <= bary_coord2, bary_coord2 <= 1)
-        close_to_0 = torch.isclose(bary_coord1, torch.tensor(0.0))
-        close_to_1 = torch.isclose(bary_coord1, torch.tensor(1.0))
+        # barycentric coordinates are computed in floating point: use the same
+        # absolute tolerance for "equal to 0" that isclose uses for "equal to 1"
+        tol = BARY_TOL
+        between_0_1 = torch.logical_and(-tol <= bary_coord2, bary_coord2 <= 1 + tol)
+        close_to_0 = torch.isclose(bary_coord1, torch.tensor(0.0), atol=tol)
+        close_to_1 = torch.isclose(bary_coord1, torch.tensor(1.0), atol=tol)
         return torch.logical_and(torch.logical_or(close_to_1, close_to_0), between_0_1)
 
     def _get_volume(self, params=Points.empty(), device="cpu"):
@@ -278,8 +284,12 @@ class ParallelogramBoundary(BoundaryDomain):
     def _add_local_normal_vector(
         self, normals, bary_x, bary_y, normal_dir_1, normal_dir_2, i
     ):
-        y_close_i = torch.where(torch.isclose(bary_y, torch.tensor(i)), 2 * i - 1, 0.0)
-        x_close_i = torch.where(torch.isclose(bary_x, torch.tensor(i)), 2 * i - 1, 0.0)
+        y_close_i = torch.where(
+            torch.isclose(bary_y, torch.tensor(i), atol=BARY_TOL), 2 * i - 1, 0.0
+        )
+        x_close_i = torch.where(
+            torch.isclose(bary_x, torch.tensor(i), atol=BARY_TOL), 2 * i - 1, 0.0
+        )
         normals += normal_dir_1 * y_close_i
         normals += normal_dir_2 * x_close_i
 
